@@ -46,8 +46,10 @@ REPS = ["nd2_float", "nd2_int", "df_int", "df_strcols", "df_offset", "df_step", 
         # the same numbers in other memory layouts / block structures (still ndarray or DataFrame of
         # int64 / float64): Fortran order, a strided view of a larger array, a read-only array, a
         # frame assembled column by column (one block per column), a frame mixing int64 and float64
-        "nd2_fortran", "nd2_strided_int", "nd2_readonly", "df_blocks", "df_mixed_dtypes"]
-REPS_P1 = ["series_float", "series_named_int", "nd1_float", "series_datetime"]
+        "nd2_fortran", "nd2_strided_int", "nd2_readonly", "df_blocks", "df_mixed_dtypes",
+        # column names that coincide with the names the library uses in its own outputs
+        "df_reserved_names"]
+REPS_P1 = ["series_float", "series_named_int", "nd1_float", "series_datetime", "series_named_labels"]
 
 
 def represent(X, rep, offset=0):
@@ -89,6 +91,10 @@ def represent(X, rep, offset=0):
         return df
     if rep == "df_int":
         return pd.DataFrame(X.astype(np.int64), index=idx("range0"), columns=cols)
+    if rep == "df_reserved_names":
+        return pd.DataFrame(Xf, index=idx("range0"), columns=["labels", "ilocs", "score", "icolumns", "index", "0"][:p])
+    if rep == "series_named_labels":
+        return pd.Series(Xf[:, 0], index=idx("range0"), name="labels")
     if rep == "df_strcols":
         return pd.DataFrame(Xf, index=idx("range0"), columns=scols)
     if rep == "df_offset":
